@@ -413,6 +413,34 @@ func (w *clientWorld) doCall(caller, idx int, cs CallSc, suffix bool) *callRec {
 	return rec
 }
 
+// doClone clones the client, issues one request on the clone and closes it.
+func (w *clientWorld) doClone(caller, idx int) {
+	w.s.Eventf("clone by c%d", caller)
+	c2, err := w.client.Clone()
+	if err != nil || c2 == nil {
+		return
+	}
+	tok := fmt.Sprintf("tok-k%d-%d-0", caller, idx)
+	rec := &callRec{caller: caller, idx: idx, kind: "clone-request", tokens: []string{tok}}
+	w.tokenOwner[tok] = rec
+	w.calls = append(w.calls, rec)
+	w.seq++
+	rec.startSeq = w.seq
+	res, err := c2.Request(context.Background(), &payloads.ActivateRequestPayload{UniqueIdentifier: tok})
+	rec.err = err
+	if err == nil {
+		if p, ok := res.(*payloads.ActivateResponsePayload); ok {
+			rec.got = append(rec.got, p.UniqueIdentifier)
+		} else {
+			rec.got = append(rec.got, fmt.Sprintf("<%T>", res))
+		}
+	}
+	rec.returned = true
+	w.seq++
+	rec.endSeq = w.seq
+	_ = c2.Close()
+}
+
 func (w *clientWorld) doClose(caller int) {
 	w.closeCalled = true
 	w.s.Eventf("close by c%d", caller)
@@ -463,6 +491,8 @@ func (w *clientWorld) start(opts ...kmipclient.Option) {
 					}
 				case "sleep":
 					w.s.Sleep(time.Duration(max(call.TimeoutMs, 1)) * time.Millisecond)
+				case "clone":
+					w.doClone(ci, i)
 				default:
 					w.doCall(ci, i, call, false)
 				}
